@@ -586,12 +586,13 @@ impl Symbol {
     /// Provides the best symbol for an octet.
     ///
     /// The function will use the simple escape sequence for octet values that
-    /// represent ASCII spaces, quotes, backslashes, and semicolons and the
-    /// plain ASCII value for all other printable ASCII characters. Any other
-    /// value is escaped using the decimal escape sequence.
+    /// represent ASCII spaces, quotes, backslashes, semicolons, and
+    /// parentheses and the plain ASCII value for all other printable ASCII
+    /// characters. Any other value is escaped using the decimal escape
+    /// sequence.
     #[must_use]
     pub fn from_octet(ch: u8) -> Self {
-        if ch == b' ' || ch == b'"' || ch == b'\\' || ch == b';' {
+        if matches!(ch, b' ' | b'"' | b'\\' | b';' | b'(' | b')') {
             Symbol::SimpleEscape(ch)
         } else if !(0x20..0x7F).contains(&ch) {
             Symbol::DecimalEscape(ch)
